@@ -3,6 +3,7 @@ package smtp
 import (
 	"bytes"
 	"io"
+	"strings"
 )
 
 // verifClient builds a Client over an in-memory connection that already holds
@@ -204,4 +205,74 @@ func verif_C15_hello_verify() {
 			verifAssert(ok, "C15.refused-argument-leaves-no-trace")
 		}
 	}
+}
+
+// verif_C15_rehello: "only parameters of extensions in the MOST RECENT EHLO
+// reply". A real greeting and EHLO exchange advertises every extension; after
+// Reset (which makes the client greet again) the second EHLO reply advertises
+// an arbitrary subset, possibly nothing at all (a single 250 line). Mail and
+// Rcpt with all options set must then use the second reply only.
+func verif_C15_rehello() {
+	names := []string{"8BITMIME", "SIZE", "REQUIRETLS", "SMTPUTF8", "DSN"}
+	first := "220 srv ready\r\n250-srv\r\n250-8BITMIME\r\n250-SIZE 1000\r\n250-REQUIRETLS\r\n250-SMTPUTF8\r\n250 DSN\r\n"
+	has := map[string]bool{}
+	var adv []string
+	for _, n := range names {
+		if nondetBool() {
+			has[n] = true
+			adv = append(adv, n)
+		}
+	}
+	second := ""
+	if len(adv) == 0 {
+		second = "250 srv\r\n"
+	} else {
+		second = "250-srv\r\n"
+		for i, n := range adv {
+			sep := "-"
+			if i == len(adv)-1 {
+				sep = " "
+			}
+			second += "250" + sep + n + "\r\n"
+		}
+	}
+	vc := &vconn{in: []byte(first + "250 2.0.0 reset\r\n" + second + "250 2.0.0 ok\r\n250 2.0.0 ok\r\n"), final: io.EOF}
+	c := NewClient(vc)
+	verifAssert(c.Hello("me.example") == nil, "C15.rehello-first-hello")
+	verifAssert(c.Reset() == nil, "C15.rehello-reset")
+	opts := &MailOptions{Size: 5, Return: DSNReturnFull, EnvelopeID: "id1", Body: Body8BitMIME}
+	opts.RequireTLS = nondetBool()
+	opts.UTF8 = nondetBool()
+	mark := len(vc.out)
+	err := c.Mail("a@b", opts)
+	out := vc.out[mark:]
+	// the client greets again first (its own line), then MAIL
+	lines := verifSplitLines(out)
+	verifObserve("c15re", len(adv), opts.RequireTLS, opts.UTF8, len(lines), err == nil)
+	needMissing := opts.RequireTLS && !has["REQUIRETLS"] || opts.UTF8 && !has["SMTPUTF8"]
+	if needMissing {
+		verifReach("C15.rehello-refused-locally")
+		verifAssert(err != nil, "C15.rehello-required-extension-missing-is-an-error")
+		for _, l := range lines {
+			verifAssert(!strings.HasPrefix(l, "MAIL "), "C15.rehello-nothing-sent-when-refused-locally")
+		}
+		return
+	}
+	verifReach("C15.rehello-mail-line")
+	verifAssert(err == nil && len(lines) == 2 && strings.HasPrefix(lines[0], "EHLO ") && strings.HasPrefix(lines[1], "MAIL FROM:<a@b>"), "C15.rehello-greets-then-mail")
+	if len(lines) != 2 {
+		return
+	}
+	line := lines[1]
+	verifAssert(strings.Contains(line, " BODY=") == has["8BITMIME"], "C15.rehello-body-iff-advertised-now")
+	verifAssert(strings.Contains(line, " SIZE=") == has["SIZE"], "C15.rehello-size-iff-advertised-now")
+	verifAssert(strings.Contains(line, " REQUIRETLS") == (has["REQUIRETLS"] && opts.RequireTLS), "C15.rehello-requiretls-iff-advertised-now")
+	verifAssert(strings.Contains(line, " SMTPUTF8") == (has["SMTPUTF8"] && opts.UTF8), "C15.rehello-smtputf8-iff-advertised-now")
+	verifAssert(strings.Contains(line, " RET=") == has["DSN"] && strings.Contains(line, " ENVID=") == has["DSN"], "C15.rehello-dsn-iff-advertised-now")
+	// RCPT
+	mark = len(vc.out)
+	ro := &RcptOptions{Notify: []DSNNotify{DSNNotifyFailure}, OriginalRecipient: "o@p", OriginalRecipientType: DSNAddressTypeRFC822}
+	verifAssert(c.Rcpt("r@b", ro) == nil, "C15.rehello-rcpt")
+	rl := string(vc.out[mark:])
+	verifAssert(strings.Contains(rl, " NOTIFY=") == has["DSN"] && strings.Contains(rl, " ORCPT=") == has["DSN"], "C15.rehello-rcpt-dsn-iff-advertised-now")
 }
